@@ -593,11 +593,19 @@ def _neg_worker_more(case):
         except Exception as e:  # noqa: BLE001
             raised = docgen.classify_exc(e) + ": " + str(e)[:120]
         if raised is None:
+            # the constructor accepts the value after all: the real state must be accepted — and what does the real
+            # encoder do with it?
             try:
                 real_state = ser(doc)
             except TypeError:
                 real_state = None
-            return dict(case=list(case), raised=None, state=real_state)
+            try:
+                with contextlib.redirect_stdout(io.StringIO()):
+                    docgen._encode_with_deadline(doc)
+                enc = None
+            except Exception as e:  # noqa: BLE001
+                enc = docgen.classify_exc(e) + ": " + str(e)[:160]
+            return dict(case=list(case), raised=None, state=real_state, enc=enc)
         return dict(case=list(case), raised=raised, state=_inject_more(copy.deepcopy(state), kind, comp, a, v))
     except Exception:  # noqa: BLE001
         import traceback
@@ -636,7 +644,12 @@ def check_rejected_more(res):
         else:
             res.count(f"total2:{path}:invalid-value:constructor-accepts")
             if not t["accepted"]:
-                res.disagree(case, f"the real constructor accepts this value, `{name}` does not")
+                if o.get("enc") and not o["enc"].startswith("ValueError: Data is not properly grouped"):
+                    res.fail(case, f"the constructor accepts this value (a validator of rtflite that `{name}` mirrors "
+                                   f"no longer refuses it) and rtf_encode() raises {o['enc']}: an accepted "
+                                   "configuration that does not encode — the first clause of C01 fails on this input")
+                else:
+                    res.disagree(case, f"the real constructor accepts this value, `{name}` does not")
     res.count("total2:invalid-value:not-representable", len(outs) - len(live))
     return len(live)
 
